@@ -443,29 +443,40 @@ fn shapes(tier: Tier) -> Vec<Shape> {
     let mut v: Vec<Shape> = vec![];
     // cycles through arrays, fields and both, of every length 1..64 and a few long ones
     let mut lens: Vec<usize> = (1..=64).collect();
-    lens.extend_from_slice(&[100, 1000]);
+    // the long ones matter: the renderer recurses once per level, so a cycle must be found
+    // without walking it on the native stack (F8: a ring of 10^4 objects killed the release binary)
+    lens.extend_from_slice(&[100, 1000, 3000, 10_000, 100_000]);
     if tier == Tier::Thorough {
-        lens.push(10_000);
+        lens.extend_from_slice(&[2000, 5000, 20_000, 50_000, 300_000]);
     }
     for n in lens {
+        let long = n >= 100;
         // array cycle: a0[0] -> a1, ..., a(n-1)[0] -> a0
         let s = format!(
             "let first = array(1, null); let cur = first; let i = 1; while i < {n} do begin let nx = array(1, null); cur[0] <- nx; cur <- nx; i <- i + 1 end; cur[0] <- first; print(\"built\\n\"); print(\"~\\n\", first); print(\"after\\n\")",
             n = n
         );
-        v.push(Shape { name: format!("array-cycle-{}", n), src: s, expect: None, debug_too: n <= 8 || n == 64 });
+        v.push(Shape { name: format!("array-cycle-{}", n), src: s, expect: None, debug_too: n <= 8 || n == 64 || long });
         let s = format!(
             "function mk() -> object begin let next = null; function hop() -> this.next end; let first = mk(); let cur = first; let i = 1; while i < {n} do begin let nx = mk(); cur.next <- nx; cur <- nx; i <- i + 1 end; cur.next <- first; print(\"built\\n\"); print(\"~\\n\", null == first.hop().hop()); print(\"~\\n\", first); print(\"after\\n\")",
             n = n
         );
-        v.push(Shape { name: format!("field-cycle-{}", n), src: s, expect: None, debug_too: n <= 8 || n == 64 });
-        if n <= 64 || n == 1000 {
+        v.push(Shape { name: format!("field-cycle-{}", n), src: s, expect: None, debug_too: n <= 8 || n == 64 || long });
+        if long {
+            // a cycle behind an acyclic tail of 500 links, entered from one field of a wide object
+            let s = format!(
+                "function mk() -> object begin let a = 1; let next = null; let z = array(2, 3) end; let first = mk(); let cur = first; let i = 1; while i < {n} do begin let nx = mk(); cur.next <- nx; cur <- nx; i <- i + 1 end; cur.next <- first; let tail = first; i <- 0; while i < 500 do begin tail <- array(2, tail); i <- i + 1 end; print(\"built\\n\"); print(\"~\\n\", object begin let p = 1; let q = tail; let r = 2 end); print(\"after\\n\")",
+                n = n
+            );
+            v.push(Shape { name: format!("tail-then-cycle-{}", n), src: s, expect: None, debug_too: true });
+        }
+        if n <= 64 || long {
             // a cycle that runs through parent links: the leaf's ancestor holds the leaf in a field
             let s = format!(
                 "function mk(p) -> object extends p begin let link = null end; let root = mk(null); let cur = root; let i = 1; while i < {n} do begin cur <- mk(cur); i <- i + 1 end; root.link <- cur; print(\"built\\n\"); print(\"~\\n\", cur); print(\"after\\n\")",
                 n = n
             );
-            v.push(Shape { name: format!("parent-cycle-{}", n), src: s, expect: None, debug_too: n <= 4 });
+            v.push(Shape { name: format!("parent-cycle-{}", n), src: s, expect: None, debug_too: n <= 4 || long });
         }
         if n <= 8 {
             // the back edge sits in an array that is the ancestor at the end of the chain
@@ -475,12 +486,12 @@ fn shapes(tier: Tier) -> Vec<Shape> {
             );
             v.push(Shape { name: format!("array-parent-cycle-{}", n), src: s, expect: None, debug_too: true });
         }
-        if n <= 64 {
+        if n <= 64 || long {
             let s = format!(
                 "function mk() -> object begin let next = null end; let first = mk(); let cur = first; let i = 1; while i < {n} do begin let nx = mk(); let box = array(2, 7); box[1] <- nx; cur.next <- box; cur <- nx; i <- i + 1 end; cur.next <- array(1, first); print(\"built\\n\"); print(\"~\\n\", first); print(\"after\\n\")",
                 n = n
             );
-            v.push(Shape { name: format!("mixed-cycle-{}", n), src: s, expect: None, debug_too: n <= 4 });
+            v.push(Shape { name: format!("mixed-cycle-{}", n), src: s, expect: None, debug_too: n <= 4 || long });
         }
     }
     v.push(Shape {
@@ -670,6 +681,80 @@ fn judge_shape(s: &Shape, run: &mut Runner, ctx: &mut Ctx) -> Vec<Violation> {
     out
 }
 
+/// nesting of brackets / block keywords in a source text (cheap upper estimate)
+pub fn nesting_estimate(src: &str) -> usize {
+    let mut depth = 0usize;
+    let mut max = 0usize;
+    let mut word = String::new();
+    let mut opens = 0usize;
+    for c in src.chars().chain(std::iter::once(' ')) {
+        if c.is_ascii_alphanumeric() || c == '_' {
+            word.push(c);
+            continue;
+        }
+        match word.as_str() {
+            "begin" | "if" | "while" | "array" | "object" | "let" | "function" | "print" => opens += 1,
+            "end" => depth = depth.saturating_sub(1),
+            _ => {}
+        }
+        if matches!(word.as_str(), "begin") {
+            depth += 1;
+        }
+        word.clear();
+        match c {
+            '(' | '[' => depth += 1,
+            ')' | ']' => depth = depth.saturating_sub(1),
+            _ => {}
+        }
+        max = max.max(depth);
+    }
+    // prefix constructs (if/while/let/array...) nest without brackets: count them as well
+    max + opens
+}
+
+/// Inputs the property does not speak about: nesting beyond its bound (200; 150 by the coarse
+/// estimate above), and integer literals large enough to turn `array(n, ..)` or a loop bound into
+/// memory or time exhaustion (the kernel's OOM killer is not a crash of the toolchain).
+pub fn outside_claim(src: &str) -> bool {
+    if nesting_estimate(src) > 150 {
+        return true;
+    }
+    let mut run = 0;
+    for c in src.chars() {
+        if c.is_ascii_digit() {
+            run += 1;
+            if run > 5 {
+                return true;
+            }
+        } else {
+            run = 0;
+        }
+    }
+    false
+}
+
+/// One input of the `source` fuzz target: everything in-process; the only "oracle" here is
+/// that the process survives (see fuzz_targets/source.rs).
+pub fn fuzz_one_source(data: &[u8]) {
+    let src = match std::str::from_utf8(data) {
+        Ok(s) => s,
+        Err(_) => return,
+    };
+    if outside_claim(src) {
+        return;
+    }
+    if let Ok(ast) = fmlrun::parse(src) {
+        if let Ok(p) = fmlrun::compile(&ast) {
+            if let Ok(bytes) = fmlrun::serialize(&p) {
+                if let Ok(loaded) = fmlrun::load(&bytes) {
+                    let _ = fmlrun::run_stepped(&loaded, 20_000);
+                    let _ = fmlrun::disassemble(&loaded);
+                }
+            }
+        }
+    }
+}
+
 impl Property for C10 {
     fn id(&self) -> &'static str {
         "C10"
@@ -692,6 +777,15 @@ impl Property for C10 {
     }
     fn max_shrink_iters(&self) -> u32 {
         0
+    }
+    fn fuzzable(&self) -> bool {
+        true
+    }
+    fn fuzz_target(&self) -> &'static str {
+        "source"
+    }
+    fn fuzz_artifact_case(&self, bytes: &[u8]) -> Value {
+        json!({"source_bytes": hex(bytes)})
     }
     fn fixed_parts(&self, ctx: &mut Ctx) -> Vec<Violation> {
         let mut out = vec![];
@@ -740,6 +834,9 @@ impl Property for C10 {
         }
         if let Some(h) = case["source_bytes"].as_str() {
             let bytes = crate::tape::unhex(h).unwrap_or_default();
+            if outside_claim(&String::from_utf8_lossy(&bytes)) {
+                return Ok(()); // deeper than the stated nesting bound, or sized to exhaust memory
+            }
             let o = run.run_source(&bytes, false).map_err(|e| Violation::new("harness-error", e.to_string(), json!({})))?;
             if let Status::Signal(s) = o.status {
                 return Err(Violation::new("native-crash", format!("signal {}", s), case.clone()).with("what", "malformed-source"));
